@@ -105,6 +105,12 @@ def fieldSat (E : Ext) (env : Env) (f : FieldDef) (x : PyVal) : Bool :=
   (f.attrNullable && isNoneV x) ||
   (if f.attrUserDefined then typeOnlyB env f.ty x else satB E env f.ty x)
 
+/-- the types whose top-level JSON decoding is "take the parsed JSON value and validate it"
+(Bytes and Timestamp are converted from text first, Void ignores the value) -/
+def isJsonPrimTy : PTy → Bool
+  | .bool _ | .int .. | .float .. | .str .. => true
+  | _ => false
+
 /-- what reading field `f` gives after `x` was successfully assigned to it: the value itself for a
 field of a user type (stored by reference), its normalisation otherwise. (Assigning None to a
 nullable field unsets it; reading then gives None, which is `x` again.) -/
